@@ -122,7 +122,8 @@ def rtsafe_(f, x0, bracket, settings):
         newtonOutOfRange = ((root - xh)*DF - F) * ((root - xl)*DF - F) > 0
         newtonDecreasingSlowly = np.abs(2.*F) > np.abs(dxOld*DF)
         dxOld = dx
-        root, dx, converged = jax.lax.cond(newtonOutOfRange | newtonDecreasingSlowly,
+        # a zero slope makes the Newton step undefined (0/0 when the iterate is itself a root): bisect instead
+        root, dx, converged = jax.lax.cond(newtonOutOfRange | newtonDecreasingSlowly | (DF == 0.0),
                                            bisection_step,
                                            newton_step,
                                            root, xl, xh, DF, F)
